@@ -484,10 +484,9 @@ func (w *l1World) checkLogInvariants() error {
 				return fmt.Errorf("datatype %s: operation with sseq %d is stored under _id %q", duid, so.sseq, so.id)
 			}
 			k := opKey(so.op)
-			if patchesHappened && w.foreignStoredOK(duid, k) {
-				// operations issued by the REST patch endpoint: every patch numbers its operations from 1
-				// under the client id recorded in the latest snapshot (known finding S17, see C19); they
-				// take no part in the per-client accounting
+			// (operations issued by the REST patch endpoint take part in the accounting like any other: every
+			// patch is a replica of its own since the S17b repair; before, patches reused (client id, sequence number))
+			if isOpen("S17b") && patchesHappened && w.foreignStoredOK(duid, k) {
 				continue
 			}
 			if storedSet[k] {
